@@ -17,7 +17,7 @@ from .core import HarnessError, canon
 VERIF = os.path.dirname(os.path.dirname(os.path.abspath(__file__)))
 OUT = os.path.join(VERIF, 'out')
 REPLAYS = os.path.join(OUT, 'replays')
-EVIDENCE = os.path.join(VERIF, 'evidence')
+EVIDENCE = os.environ.get('VERIF_EVIDENCE_DIR') or os.path.join(VERIF, 'evidence')
 KNOWN = os.path.join(VERIF, 'known_findings.txt')
 
 SEED_MULT = 1_000_003
